@@ -982,7 +982,7 @@ func main() {
 	runOptionCases(corruptSweep(g, 160, f.Thorough()), otie, omon, drv)
 	// trait-level readers that compose a response and project it
 	ctie := res.Tie("composed-readers", "K1",
-		"every trait-level reader that composes its response and then projects it, or pages over stored items and projects the page (openclosepb Model/ModelServer GetPositions and Model.PullPositions with derived presets; ListModes, ListHails, ListPublications, ListConsumables, ListInventory, ListChildren, ListBookings, ListWasteRecords) and the server-streaming Pull RPC of each of those services through the in-process wrapper (PullPositions, PullModes, PullHails, PullPublications, PullConsumables, PullInventory, PullChildren, PullBookings, PullWasteRecords: every seed value under the mask vs the same stream without a mask; and, for the eight List/Pull services, the UPDATES: an unmasked and a masked client stream open on the same instance while 2-4 items are created / updated / deleted through the model, each write followed by a marker item: every change of the masked stream, old and new value, vs the change the unmasked stream delivers for the same write), first a FIXED part that is the same for every seed — for every reader the "nothing stored yet" start (empty collection / never-written value; openclosepb also with the configuration that makes its derived preset non-empty on an empty store: a preset without positions) x nil, empty, every single path of the item's path tree to depth 2 (each top-level path alone excludes the others and includes only itself), parent+child x the read, the seed values of the Pull RPC, and for model subscriptions seed + 2 writes and updates-only (no seed may be delivered) —, then freshly generated populated instances: masked read vs the Lean filter of the UNMASKED read of the same instance; masks: nil, empty, every single path of the item's path tree to depth 2 (through repeated messages too), parent+child in both orders, unknown paths, random 1-3 paths to depth 3; subscriptions: seed + 2-4 single stored changes, an event is due exactly when the projection changes; non-trivial = non-empty mask; distinct by (reader, instance seed, mask)")
+		"every trait-level reader that composes its response and then projects it, or pages over stored items and projects the page (openclosepb Model/ModelServer GetPositions and Model.PullPositions with derived presets; ListModes, ListHails, ListPublications, ListConsumables, ListInventory, ListChildren, ListBookings, ListWasteRecords) and the server-streaming Pull RPC of each of those services through the in-process wrapper (PullPositions, PullModes, PullHails, PullPublications, PullConsumables, PullInventory, PullChildren, PullBookings, PullWasteRecords: every seed value under the mask vs the same stream without a mask; and, for the eight List/Pull services, the UPDATES: an unmasked and a masked client stream open on the same instance while 2-4 items are created / updated / deleted through the model, each write followed by a marker item: every change of the masked stream, old and new value, vs the change the unmasked stream delivers for the same write), first a FIXED part that is the same for every seed — for every reader the nothing-stored-yet start (empty collection / never-written value; openclosepb also with the configuration that makes its derived preset non-empty on an empty store: a preset without positions) x nil, empty, every single path of the item's path tree to depth 2 (each top-level path alone excludes the others and includes only itself), parent+child x the read, the seed values of the Pull RPC, and for model subscriptions seed + 2 writes and updates-only (no seed may be delivered) —, then freshly generated populated instances: masked read vs the Lean filter of the UNMASKED read of the same instance; masks: nil, empty, every single path of the item's path tree to depth 2 (through repeated messages too), parent+child in both orders, unknown paths, random 1-3 paths to depth 3; subscriptions: seed + 2-4 single stored changes, an event is due exactly when the projection changes; non-trivial = non-empty mask; distinct by (reader, instance seed, mask)")
 	cmon := res.Monitor("composed-read-semantics",
 		"for every trait-level reader and mask: each returned item / delivered value = independent projection of the corresponding unmasked item of the same instance; same number of items; the unmasked read after the masked read equals the one before (stored state not altered), messages returned by earlier reads do not change, repeating the masked read gives the same result; subscriptions deliver an event exactly when the projection of the current value changes, each equal to that projection; for the Pull RPC updates: the masked stream delivers, for every change the unmasked stream delivers, a change of the same kind whose old and new value are the projections (absent stays absent), and may leave one out only when both projections are equal; no panic for any mask")
 	wtie := res.Tie("waste-stream", "K1",
